@@ -47,6 +47,10 @@ type Root struct {
 	// implicitSchema is true when schema was not defined in an SDL but put
 	// together from the types named Query, Mutation, and Subscription.
 	implicitSchema bool
+
+	// coerced collects, while the schema is validated, the replacements of
+	// written values by coerced ones. Nil when not validating.
+	coerced *[]func()
 }
 
 // NewRoot creates a new GraphQL schema root with a root resolver object. The
@@ -534,6 +538,15 @@ func (root *Root) SDL(full bool, desc ...bool) string {
 func (root *Root) validate() error {
 	var errs []error
 
+	// Validation coerces directive argument defaults and the argument values
+	// of directive uses and keeps the coerced values. Those are only put in
+	// place when everything is valid. If the load fails it has to leave the
+	// root as it was and not with values coerced by types, such as an
+	// extended input type, that are taken out again.
+	var coerced []func()
+	root.coerced = &coerced
+	defer func() { root.coerced = nil }()
+
 	for _, t := range root.types.list {
 		errs = append(errs, root.validateTypeName("type", t)...)
 		errs = append(errs, root.validateDirUses(t)...)
@@ -557,7 +570,21 @@ func (root *Root) validate() error {
 	if 0 < len(errs) {
 		return Errors(errs)
 	}
+	for _, set := range coerced {
+		set()
+	}
 	return nil
+}
+
+// keepCoerced calls set, which puts a coerced value in place of the value as
+// written, right away or while the schema is validated once it is known that
+// the schema is valid.
+func (root *Root) keepCoerced(set func()) {
+	if root.coerced != nil {
+		*root.coerced = append(*root.coerced, set)
+	} else {
+		set()
+	}
 }
 
 // Checks that name satisfies the requirements specified in
@@ -637,14 +664,17 @@ func (root *Root) validateDirUse(where string, loc Location, du *DirectiveUse) (
 		// here. A Var is also allowed.
 		if _, ok := av.Value.(Var); !ok {
 			if co, _ := a.Type.(InCoercer); co != nil {
-				if v, err := co.CoerceIn(av.Value); err != nil {
+				// Coerce a copy, coercing fills the defaults of an input
+				// type into the object it is given.
+				if v, err := co.CoerceIn(dupValue(av.Value)); err != nil {
 					errs = append(errs, fmt.Errorf("%w at %d:%d", err, av.line, av.col))
 				} else {
 					// Might as well replace the coerced value since it is
 					// really what is needed. Do not compare the values
 					// first, list and object values are not comparable and
 					// would panic.
-					av.Value = v
+					av, v := av, v
+					root.keepCoerced(func() { av.Value = v })
 				}
 			}
 		}
